@@ -1068,33 +1068,74 @@ namespace
     if (nthreads < 1 || nthreads > 256 || conns < 1 || conns > 1024)
       return fail("threads/conns out of range");
 
+    long long connected_us(2000);
+    if (args.count("connected_us"))
+    {
+      if (!get_int(args, "connected_us", connected_us, err))
+        return fail(err);
+    }
+
+    // every application handler of one connection: never two at a time, and
+    // none before that connection's connected handler has returned
     std::mutex in_handler_mutex;
     std::map<void*, int> in_handler;
-    std::atomic<long long> overlaps(0), handled(0), srv_sent(0),
-                           srv_connected(0), srv_disconnected(0);
+    std::map<void*, int> connected_done;
+    std::atomic<long long> overlaps(0), order_violations(0), handled(0),
+                           srv_sent(0), srv_connected(0), srv_disconnected(0);
+
+    auto enter([&](void* key, bool is_connected_handler)
+    {
+      std::lock_guard<std::mutex> lock(in_handler_mutex);
+      int& count(in_handler[key]);
+      if (count != 0)
+        ++overlaps;
+      ++count;
+      if (!is_connected_handler && key && connected_done[key] == 0)
+        ++order_violations;
+    });
+    auto leave([&](void* key, bool is_connected_handler)
+    {
+      std::lock_guard<std::mutex> lock(in_handler_mutex);
+      --in_handler[key];
+      if (is_connected_handler)
+        connected_done[key] = 1;
+    });
 
     ServerBox box;
     if (!box.start([&](http_server_type& srv)
         {
-          srv.message_sent_event([&](http_connection::weak_pointer)
-            { ++srv_sent; });
-          srv.socket_connected_event([&](http_connection::weak_pointer)
-            { ++srv_connected; });
-          srv.socket_disconnected_event([&](http_connection::weak_pointer)
-            { ++srv_disconnected; });
+          srv.message_sent_event([&](http_connection::weak_pointer weak_ptr)
+            {
+              void* key(weak_ptr.lock().get());
+              enter(key, false);
+              ++srv_sent;
+              leave(key, false);
+            });
+          srv.socket_connected_event([&](http_connection::weak_pointer weak_ptr)
+            {
+              void* key(weak_ptr.lock().get());
+              enter(key, true);
+              std::this_thread::sleep_for(std::chrono::microseconds(connected_us));
+              ++srv_connected;
+              leave(key, true);
+            });
+          srv.socket_disconnected_event([&](http_connection::weak_pointer weak_ptr)
+            {
+              void* key(weak_ptr.lock().get());
+              enter(key, false);
+              ++srv_disconnected;
+              leave(key, false);
+              std::lock_guard<std::mutex> lock(in_handler_mutex);
+              connected_done.erase(key);    // the address may be reused
+              in_handler.erase(key);
+            });
           srv.request_received_event(
             [&](http_connection::weak_pointer weak_ptr,
                 http_request const&, std::string const&)
           {
             http_connection::shared_pointer connection(weak_ptr.lock());
             void* key(connection.get());
-            {
-              std::lock_guard<std::mutex> lock(in_handler_mutex);
-              int& count(in_handler[key]);
-              if (count != 0)
-                ++overlaps;
-              ++count;
-            }
+            enter(key, false);
             std::this_thread::sleep_for(std::chrono::microseconds(50));
             ++handled;
             if (connection)
@@ -1103,10 +1144,7 @@ namespace
               response.add_date_header();
               connection->send(std::move(response), std::string("hello from the pool\n"));
             }
-            {
-              std::lock_guard<std::mutex> lock(in_handler_mutex);
-              --in_handler[key];
-            }
+            leave(key, false);
           });
         }, static_cast<int>(nthreads), err))
       return fail("server: " + err);
@@ -1188,7 +1226,9 @@ namespace
     std::ostringstream os;
     os << "RESULT scenario=pool threads=" << nthreads << " conns=" << conns
        << " sent=" << sent.load() << " answered=" << answered.load()
-       << " overlaps=" << overlaps.load() << " timeouts=" << timeouts.load()
+       << " overlaps=" << overlaps.load()
+       << " order_violations=" << order_violations.load()
+       << " timeouts=" << timeouts.load()
        << " reqs=" << reqs << " handled=" << handled.load()
        << " srv_sent=" << srv_sent.load()
        << " srv_connected=" << srv_connected.load()
